@@ -159,6 +159,15 @@ class AtxModel:
         value = int(hexpart, 16)
         o = self.outcome_of(bits, value)
         n = 2 if txt[0] == "t" else 1
+        if o[0] == "mute":
+            self.world.probe("atx-hat-mute")
+            return                      # the hat says nothing at all: every read times out
+        if o[0] == "busy":
+            # the read budget is used up by lines about another bus master's frames
+            self.world.probe("atx-hat-busy")
+            for k_ in range(8):
+                self.out.append(("H%04X\n" % ((0x1234 + 77 * k_) & 0xFFFF)).encode())
+            return
         for i in range(n):
             if o[0] == "value":
                 self.out.append(("J%02X\n" % o[1]).encode())
@@ -216,6 +225,10 @@ def gen_plan(r, eng, seed, prop):
         ops.append({"cmd": s, "out": o})
     if eng == "daliserver" and ops and r.random() < 0.2:
         ops[-1]["conn_fault"] = r.choice(["send", "recv"])
+    if eng == "atx" and ops and r.random() < 0.15:
+        # no verdict line within the driver's read budget: nothing is known about the bus ('no answer' for a
+        # query, None for a command) - last operation of the plan, what is left unread would reach a next one
+        ops[-1]["out"] = [r.choice(["mute", "busy"])]
     return {"engine": "syncsim", "property": prop, "driver": eng, "seed": seed,
             "knobs": {"multi": r.random() < 0.5}, "ops": ops}
 
@@ -318,7 +331,7 @@ def run_plan_c16(plan, prop, judge_response):
         if st == "raised":
             V("send-raised", "op %d %s: %r" % (i, cmd, val), site=type(val).__name__)
             continue
-        o = out if out[0] != "spurious" else ["silent"]
+        o = out if out[0] not in ("spurious", "mute", "busy") else ["silent"]
         judge_response(V, drv, "op%d" % i, cmd, o, val, False, all_values, False)
     for v in vs:
         add_violation(res, v)
